@@ -3,8 +3,8 @@
 (* strict x route tables x URL domain, through Router.URL and mux.URL.      *)
 EXTENDS MC_Router
 
-GoodU == {"/u/{id}", "/u/{id:\\d+}", "/u/{id:digit}/x", "/p/{-id}/{p}", "/lit", "/w/{id:word}-{p:\\d*}", "/lit/", "/u/{id}/", "/n/{id:\\d+|new}"}
-BadU  == {"/u/{}", "/u/{a}{b}", "/u/{id}/{id}", "/u/{id:[}", "/u/{:\\d+}", "/u/{id}/{-id}", "/u/{-id}/{id:\\d+}"}
+GoodU == {"/u/{id}", "/u/{id:\\d+}", "/u/{id:digit}/x", "/p/{-id}/{p}", "/lit", "/w/{id:word}-{p:\\d*}", "/lit/", "/u/{id}/", "/n/{id:\\d+|new}", "/u/{id}/z"}
+BadU  == {"/u/{}", "/u/{a}{b}", "/u/{id}/{id}", "/u/{id:[}", "/u/{:\\d+}", "/u/{id}/{-id}", "/u/{-id}/{id:\\d+}", "/u/{id:\\d+}{p}", "/u/{id:digit}{p}"}
 \* params maps: id absent or one of 7 values, p absent or one of 4, an extra key absent or present
 ValsId == {"5", "abc5", "5/6", "", "x y", "new", "brandnew"}
 ValsP  == {"5", "abc5", "", "x y"}
